@@ -3,7 +3,7 @@
    deletion of a pristine tree, or the rename to <dir>~removed, or failure. *)
 From LC Require Import Lib.Bytes Lib.Lex Lib.Fields Lib.PathM Gen.Consts
   Model.MountInfo Model.FsTree Model.Kernel Model.Layers Cases.Verdict Cases.LC Cases.C09
-  Proofs.PathP Proofs.PathBaseP Proofs.FsxMonadP Proofs.FsP Proofs.LayersP.
+  Proofs.PathP Proofs.PathBaseP Proofs.CleanP Proofs.PathDirP Proofs.FsxMonadP Proofs.FsP Proofs.LayersP.
 Import LC LCS.
 Close Scope string_scope.
 Open Scope list_scope.
@@ -75,30 +75,58 @@ Definition links_apart (c : cfgT) (f : fsT) (x : layer) : bool :=
 (* parents exist, as far as <dir>~removed is concerned *)
 Definition removed_closed (f : fsT) (x : layer) : bool :=
   negb (has_children f (removed_of x)) || exists_ f (removed_of x).
-(* the directories `add` creates according to the property text are all the model's pristine
-   tree allows inside the layer directory (true for the default configuration; false when
-   buildroot, workdir or upperdir nest deeper) *)
-Definition created_dirs (c : cfgT) (x : layer) : list bytes :=
-  [l_path x; build_path c x] ++
-  match l_base x with
-  | [] => [pathjoin [build_path c x; bs "root"]]
-  | _ => [pathdir (work_path c x); work_path c x; pathdir (upper_path c x); upper_path c x]
-  end.
-Definition allowed_dirs (c : cfgT) (x : layer) : list bytes :=
-  ([l_path x; build_path c x] ++
-   match l_base x with
-   | [] => [pathjoin [build_path c x; bs "root"]]
-   | _ => prefixes (work_path c x) ++ prefixes (upper_path c x)
-   end) ++ prefixes (build_path c x).
-Definition dirs_agree (c : cfgT) (x : layer) : bool :=
-  forallb (fun p => negb (at_or_under (l_path x) p) || memb p (created_dirs c x)) (allowed_dirs c x).
-
 Definition wf_remove (c : cfgT) (f : fsT) (n : bytes) : bool :=
-  nodup_paths (map fst f)
+  is_abs (c_layers c) && nodup_paths (map fst f)
   && match layer_named c f n with
      | None => true
-     | Some x => links_apart c f x && removed_closed f x && dirs_agree c x
+     | Some x => links_apart c f x && removed_closed f x
      end.
+
+(* a clean absolute path other than "/" is the last of its own prefixes *)
+Lemma pjoin_concat cs : cs <> [] -> sl :: pjoin cs = concat (map (cons sl) cs).
+Proof.
+  induction cs as [|c0 r IH]; [congruence|]. intros _. destruct r as [|c1 r'].
+  - cbn. now rewrite app_nil_r.
+  - change (pjoin (c0 :: c1 :: r')) with (c0 ++ sl :: pjoin (c1 :: r')). rewrite IH by discriminate.
+    cbn [map concat]. reflexivity.
+Qed.
+Lemma prefixes_acc_last cs : forall cur, cs <> [] -> In (cur ++ concat (map (cons sl) cs)) (prefixes_acc cur cs).
+Proof.
+  induction cs as [|c0 r IH]; intros cur Hne; [congruence|]. cbn [prefixes_acc map concat].
+  destruct r as [|c1 r'].
+  - left. cbn. now rewrite app_nil_r.
+  - right. specialize (IH (cur ++ sl :: c0)). rewrite <- app_assoc in IH. cbn [app] in IH.
+    change (sl :: c0 ++ concat (map (cons sl) (c1 :: r'))) with ((sl :: c0) ++ concat (map (cons sl) (c1 :: r'))).
+    apply IH. discriminate.
+Qed.
+Lemma filter_plain_id cs : Forall plain cs -> filter (fun c0 => negb (beq c0 [])) cs = cs.
+Proof.
+  induction 1 as [|c0 r (Hne & _) _ IH]; [reflexivity|]. cbn [filter].
+  assert (E : beq c0 [] = false) by now apply beq_false. rewrite E. cbn [negb]. now rewrite IH.
+Qed.
+Lemma prefixes_self X : is_rooted X = true -> clean X = X -> beq X root = false -> In X (prefixes X).
+Proof.
+  intros Hr Hc Hb. destruct (clean_abs_shape X Hr Hc) as [E HP].
+  remember (cstack X) as cs eqn:Ecs. clear Ecs Hr Hc.
+  assert (Hne : cs <> []).
+  { intros ->. subst X. unfold root in Hb. cbn [pjoin join] in Hb. rewrite beq_refl in Hb. discriminate. }
+  unfold prefixes. assert (S : psplit X = [] :: cs).
+  { rewrite E. unfold psplit, split. cbn [split_acc]. rewrite Ascii.eqb_refl. cbn [rev]. f_equal.
+    apply split_join; [exact Hne|]. eapply Forall_impl; [|exact HP]. intros a (_ & _ & _ & H). exact H. }
+  rewrite S. cbn [filter beq negb]. rewrite (filter_plain_id cs HP).
+  rewrite E at 1. rewrite (pjoin_concat cs Hne). apply (prefixes_acc_last cs [] Hne).
+Qed.
+Lemma pathjoin2_rooted_clean a b : is_rooted a = true ->
+  is_rooted (pathjoin [a; b]) = true /\ clean (pathjoin [a; b]) = pathjoin [a; b].
+Proof.
+  intros Hr. assert (Ha : a <> []) by (destruct a; [discriminate|discriminate]).
+  assert (G : forall y, is_rooted y = true -> is_rooted (clean y) = true /\ clean (clean y) = clean y).
+  { intros y Hy. split; [now apply clean_rooted|apply clean_idem]. }
+  unfold pathjoin. cbn [filter]. assert (Ea : beq a [] = false) by now apply beq_false. rewrite Ea. cbn [negb].
+  destruct (beq b []) eqn:Eb; cbn [negb].
+  - cbn [pjoin join]. now apply G.
+  - apply G. cbn [pjoin join]. destruct a; [congruence|exact Hr].
+Qed.
 
 (* ------------------------------------------------------------------ the run *)
 Section Remove.
@@ -110,7 +138,6 @@ Hypothesis Hreal : e_pretend e = false.
 Hypothesis Hnd : NoDup (map fst f).
 Hypothesis Hapart : links_apart c f x = true.
 Hypothesis Hclosed : removed_closed f x = true.
-Hypothesis Hdirs : dirs_agree c x = true.
 
 Let d := l_path x.
 Let removed := removed_of x.
@@ -169,6 +196,7 @@ Qed.
 
 (* ------------------------------------------------------------------ the two endings *)
 Hypothesis Hroot : beq d root = false.
+Hypothesis Hbuild : at_or_under d (build_path c x) = true -> In (build_path c x) (prefixes (build_path c x)).
 
 Lemma removed_not_under_d s : at_or_under d (removed ++ s) = false.
 Proof.
@@ -190,11 +218,21 @@ Proof.
   assert (Hg : In en g). { destruct HA as (H1 & _). apply H1; [exact Hin|]. unfold region. fold d. now rewrite Hu. }
   specialize (Hp en Hg). fold d in Hp. rewrite Hu in Hp.
   unfold C09.created_by_add in Hc. destruct (snd en) as [|y|t].
-  - unfold dirs_agree in Hdirs. rewrite forallb_forall in Hdirs.
-    assert (Hin2 : In (fst en) (allowed_dirs c x)).
-    { unfold allowed_dirs. fold d. apply in_or_app. apply orb_true_iff in Hp as [Hp|Hp]; apply memb_in in Hp; auto. }
-    specialize (Hdirs _ Hin2). fold d in Hdirs. rewrite Hu in Hdirs. cbn [negb orb] in Hdirs.
-    unfold created_dirs in Hdirs. rewrite Hdirs in Hc. discriminate.
+  - assert (G : memb (fst en) (l_path x :: filter (at_or_under (l_path x))
+                 (prefixes (build_path c x) ++
+                  match l_base x with
+                  | [] => [pathjoin [build_path c x; bs "root"]]
+                  | _ :: _ => prefixes (work_path c x) ++ prefixes (upper_path c x)
+                  end)) = true); [|rewrite G in Hc; discriminate].
+    apply memb_in.
+    assert (K : forall l, In (fst en) l -> In (fst en) (filter (at_or_under (l_path x)) l)).
+    { intros l Hl. apply filter_In. split; [exact Hl|exact Hu]. }
+    apply orb_true_iff in Hp as [Hp|Hp]; apply memb_in in Hp.
+    + apply in_app_or in Hp as [[Hp|[Hp|[]]]|Hp].
+      * now left.
+      * right. apply K. apply in_or_app. left. rewrite <- Hp. apply Hbuild. fold d. rewrite Hp. exact Hu.
+      * right. apply K. apply in_or_app. now right.
+    + right. apply K. apply in_or_app. now left.
   - unfold layerconfig_path in Hp. fold d in Hp, Hc. rewrite Hp in Hc. discriminate.
   - discriminate.
 Qed.
@@ -351,11 +389,21 @@ Proof.
   cbn [v_cmd v_env v_after v_res wo_fs]. rewrite Hpe. cbn [negb]. fold f.
   destruct (layer_named c f n) as [x|] eqn:Ex; [|reflexivity].
   unfold wf_remove in Hwf. fold f in Hwf. rewrite Ex in Hwf.
-  apply andb_true_iff in Hwf as [Hnd Hwf]. apply andb_true_iff in Hwf as [Hwf Hdirs]. apply andb_true_iff in Hwf as [Hapart Hclosed].
+  apply andb_true_iff in Hwf as [Hnd Hwf]. apply andb_true_iff in Hnd as [Habs Hnd]. apply andb_true_iff in Hwf as [Hapart Hclosed].
   apply nodup_paths_NoDup in Hnd.
   unfold layer_named, layers_on_disk in Ex.
   destruct (lm_get_in _ _ _ Ex) as [Hxin Hxn].
   pose proof (loaded_path c f) as HLP. rewrite Forall_forall in HLP. specialize (HLP x Hxin). rewrite Hxn in HLP.
+  assert (Hbuild : beq (l_path x) root = false -> at_or_under (l_path x) (build_path c x) = true ->
+                   In (build_path c x) (prefixes (build_path c x))).
+  { intros Hd Hu. assert (Rd : is_rooted (l_path x) = true).
+    { rewrite HLP. unfold layer_path. now apply pathjoin2_rooted_clean. }
+    destruct (pathjoin2_rooted_clean (l_path x) (c_buildroot c) Rd) as [Rb Cb]. fold (build_path c x) in Rb, Cb.
+    apply prefixes_self; auto. apply beq_false. intros E. rewrite E in Hu.
+    unfold at_or_under, under in Hu. rewrite Hd in Hu. apply orb_true_iff in Hu as [Hu|Hu].
+    - apply beq_true in Hu. rewrite <- Hu in Hd. now rewrite beq_refl in Hd.
+    - apply prefixb_spec in Hu as [r Hu]. destruct (l_path x); [discriminate|]. cbn in Hu. injection Hu as _ Hu.
+      destruct l; discriminate. }
   (* the run *)
   assert (HR : hoare (fun g => g = f) (run_command e c um (CRemove n false))
                      (fun _ => Qg c f x) (Eg c f x)).
@@ -369,9 +417,9 @@ Proof.
       eapply h_bind; [|intros ld'; apply (p_ret (Qg c f x) (Eg c f x))].
       destruct (test_name (ld_map ld) n NNeed) eqn:Et.
       + destruct (test_name_need _ _ Et) as [Hne Hleg].
+        assert (Hd : beq (l_path x) root = false) by (rewrite HLP; now apply layer_path_not_root).
         eapply h_pre; [eapply remove_layer_run; eauto|].
-        * rewrite HLP. now apply layer_path_not_root.
-        * intros g ->. now apply A_f.
+        intros g ->. now apply A_f.
       + unfold remove_layer. rewrite Et. intros s Hs0. cbn. rewrite Hs0. apply A_E, A_f; assumption. }
   pose proof (HR (MkSt (world_of w) 0 []) eq_refl) as HR'. rewrite ER in HR'.
   set (f' := w_fs (s_w st)) in *. change (fs_of st) with f' in HR'.
@@ -456,8 +504,8 @@ Qed.
 
 (* the same theorem with the disjointness stated on the configuration *)
 Definition wf_remove_cfg (c : cfgT) (f : fsT) (n : bytes) : bool :=
-  nodup_paths (map fst f)
+  is_abs (c_layers c) && nodup_paths (map fst f)
   && match layer_named c f n with
      | None => true
-     | Some x => cfg_apart c n && removed_closed f x && dirs_agree c x
+     | Some x => cfg_apart c n && removed_closed f x
      end.
